@@ -1,5 +1,7 @@
 import Martian.Props.C01.Wire
 import Martian.Props.C01.Facts
+import Martian.Props.C01.SemFacts
+import Martian.Props.C01.KeepAlive
 import Martian.Lemmas.Proxy
 import Martian.Lemmas.ProxyTrace
 import Martian.Lemmas.ProxyState
